@@ -11,6 +11,7 @@ From IBL.lib Require Import PyInt.
 From IBL.C17 Require Import Model.
 From IBL.C12 Require Import Model Proofs ProofsR2 Cast CastProofs.
 From IBL.C12 Require JointC11.
+From IBL.C12 Require Import Names NamesProofs.
 Import ListNotations.
 Open Scope Z_scope.
 
@@ -374,6 +375,37 @@ Example C12_example_shanks :
   shanks_processed 21 [] [0; 0; 0] true = Some [0] /\ shanks_processed 21 [] [0; 1; 0] true = None /\
   file_chns 21 false [0; 1; 0] 4 1 0 = [0; 1; 2; 3] /\ np_version 2013 = 24 /\ np_version 0 = 0.
 Proof. vm_compute. repeat split. Qed.
+
+(* ------------------------------------------------------------------ *)
+(* Round 7: the name of the LF output                                  *)
+(* ------------------------------------------------------------------ *)
+(* For an AP file named st ++ "." ++ e (e its last suffix, "bin" or "cbin"; st may carry a dataset
+   UUID after the band label) of either probe version, given flat or compressed: the LF output is
+   named  replace(st, "ap" -> "lf") ++ ".bin"  (NP2.4 with a flat input: ++ "." ++ replace(e)), where
+   the replacement is C04's model of str.replace; and as soon as st contains "ap" that name differs
+   from st followed by ANY extension: the LF stream never lands in the AP binary (flat or .cbin), its
+   .ch or its .meta. *)
+Theorem C12_lf_output_name : forall version is_cbin st e e',
+  nodot e ->
+  lf_out_name version is_cbin (st ++ 46 :: e) =
+    IBL.C04.Model.lf_name st ++ (if (version =? 21) || is_cbin then ext_bin else 46 :: IBL.C04.Model.lf_name e) /\
+  (IBL.C04.Model.has_ap st = true -> lf_out_name version is_cbin (st ++ 46 :: e) <> st ++ e').
+Proof.
+  intros version is_cbin st e e' He. split.
+  - exact (lf_out_name_closed version is_cbin st e He).
+  - exact (lf_out_name_not_ap version is_cbin st e e' He).
+Qed.
+Print Assumptions C12_lf_output_name.
+
+Example C12_example_names :
+  (* "x.ap.cbin" -> "x.lf.bin" for both versions; "snapshot.imec0.ap.4f1e.cbin" -> "snlfshot.imec0.lf.4f1e.bin" *)
+  lf_out_name 21 true [120; 46; 97; 112; 46; 99; 98; 105; 110] = [120; 46; 108; 102; 46; 98; 105; 110] /\
+  lf_out_name 24 true [120; 46; 97; 112; 46; 99; 98; 105; 110] = [120; 46; 108; 102; 46; 98; 105; 110] /\
+  lf_out_name 24 false [120; 46; 97; 112; 46; 98; 105; 110] = [120; 46; 108; 102; 46; 98; 105; 110] /\
+  lf_out_name 21 true [115; 110; 97; 112; 46; 97; 112; 46; 52; 102; 49; 101; 46; 99; 98; 105; 110]
+    = [115; 110; 108; 102; 46; 108; 102; 46; 52; 102; 49; 101; 46; 98; 105; 110] /\
+  nodot [99; 98; 105; 110] /\ IBL.C04.Model.has_ap [120; 46; 97; 112] = true.
+Proof. vm_compute. repeat split. intros [H|[H|[H|[H|[]]]]]; discriminate. Qed.
 
 (* hypotheses of the theorems above are met by concrete, non-trivial inputs *)
 Example C12_example_margins :
